@@ -109,8 +109,11 @@ func vLegalKey(n int) string {
 	return k
 }
 
+const vC05Custom = Level(43)
+
 func VH_C05() {
 	vProduction() // production: no multi-line error dump
+	_ = RegisterLevel(vC05Custom, "cfive")
 	flags = LstdFlags &^ Lcaller
 	caller := false
 	if vParam("caller", 0) == 1 {
@@ -128,53 +131,76 @@ func VH_C05() {
 		val    string
 		quoted bool
 		known  string
+		check  func(string) bool // when set: the parsed value must satisfy it (instead of equalling val)
 	}
 	var wants []want
 	var attrs Attrs
 	nA := vChoose(vParam("attrs", 2) + 1)
 	msg := "m"
+	sev := InfoLevel
 	if nA == 0 {
-		msg = vString(vParam("msg", 2))
+		// every severity formats a record (only Print/Println render a blank message as an empty line: C02);
+		// the other severities get messages of at most one byte (empty, blank, special, ordinary)
+		sev = []Level{InfoLevel, ErrorLevel, DebugLevel, OKLevel, SuccessLevel, FailLevel, vC05Custom}[vChoose(vParam("sevs", 7))]
+		if sev == InfoLevel {
+			msg = vString(vParam("msg", 2))
+		} else {
+			msg = vString(1)
+		}
 	}
 	afterGroup := false
 	var mk func(prefix string, key string, d int) Attr
 	mk = func(prefix, key string, d int) Attr {
 		full := prefix + key
-		switch vChoose(11) {
+		switch vChoose(13) {
 		case 0:
 			s := vString(1)
-			wants = append(wants, want{full, s, true, ""})
+			wants = append(wants, want{full, s, true, "", nil})
 			return NewAttr(key, s)
 		case 1:
 			b := vBool()
-			wants = append(wants, want{full, strconv.FormatBool(b), false, ""})
+			wants = append(wants, want{full, strconv.FormatBool(b), false, "", nil})
 			return NewAttr(key, b)
 		case 2:
 			x := []int64{0, -1, 9223372036854775807, -9223372036854775808}[vChoose(4)]
-			wants = append(wants, want{full, strconv.FormatInt(x, 10), false, ""})
+			wants = append(wants, want{full, strconv.FormatInt(x, 10), false, "", nil})
 			return NewAttr(key, x)
 		case 3:
-			wants = append(wants, want{full, "18446744073709551615", false, ""})
+			wants = append(wants, want{full, "18446744073709551615", false, "", nil})
 			return NewAttr(key, uint64(18446744073709551615))
 		case 4:
-			wants = append(wants, want{full, "1.5", false, ""})
+			wants = append(wants, want{full, "1.5", false, "", nil})
 			return NewAttr(key, 1.5)
 		case 5:
-			wants = append(wants, want{full, "1.5s", true, ""})
+			wants = append(wants, want{full, "1.5s", true, "", nil})
 			return NewAttr(key, 1500*time.Millisecond)
 		case 6:
-			wants = append(wants, want{full, "boom", true, ""})
+			wants = append(wants, want{full, "boom", true, "", nil})
 			return NewAttr(key, errors.New("boom"))
 		case 7:
-			wants = append(wants, want{full, "str", true, ""})
+			wants = append(wants, want{full, "str", true, "", nil})
 			return NewAttr(key, vStringerT{"str"})
 		case 8:
 			b := vString(1)
-			wants = append(wants, want{full, b, true, "C05-byte-slices-written-raw"})
+			wants = append(wants, want{full, b, true, "C05-byte-slices-written-raw", nil})
 			return NewAttr(key, []byte(b))
 		case 9:
-			wants = append(wants, want{full, "<nil>", false, ""})
+			wants = append(wants, want{full, "<nil>", false, "", nil})
 			return NewAttr(key, nil)
+		case 11:
+			t := vTimes()[vChoose(3)]
+			wants = append(wants, want{full, "", true, "", func(v string) bool {
+				got, err := time.Parse(time.RFC3339Nano, v)
+				return err == nil && got.Equal(t)
+			}})
+			return NewAttr(key, t)
+		case 12:
+			d := []time.Duration{1, 90061000000001, -1500 * time.Millisecond}[vChoose(3)]
+			wants = append(wants, want{full, "", true, "", func(v string) bool {
+				got, err := time.ParseDuration(v)
+				return err == nil && got == d
+			}})
+			return NewAttr(key, d)
 		case 10:
 			var members []any
 			if d > 0 {
@@ -206,7 +232,7 @@ func VH_C05() {
 		attrs = append(attrs, a)
 	}
 	vTagAfterGroup(items, func(j int) { wants[j].known = "C05-attribute-after-group-loses-its-key" })
-	lg.WriteThru(vCtx, InfoLevel, vTime0(), 0, msg, attrs)
+	lg.WriteThru(vCtx, sev, vTime0(), 0, msg, attrs)
 	vAssert(len(rec.evs) == 1, "C05: one record")
 	p := rec.evs[0].P
 	// the library orders attributes by key: any order of the pairs is accepted
@@ -228,7 +254,7 @@ func VH_C05() {
 	if len(pairs) < 4 {
 		return
 	}
-	vAssert(pairs[1].v == "x" && pairs[2].v == "info", "C05: logger and level values")
+	vAssert(pairs[1].v == "x" && pairs[2].v == sev.String(), "C05: logger and level values")
 	vAssert(pairs[3].quoted && pairs[3].v == msg, "C05: msg parses back to the message")
 	rest := pairs[4:]
 	if caller {
@@ -241,7 +267,11 @@ func VH_C05() {
 		for _, pr := range rest {
 			if pr.k == w.key {
 				found++
-				vAssert(pr.v == w.val, "C05: the attribute parses back to its exact value")
+				if w.check != nil {
+					vAssert(w.check(pr.v), "C05: the attribute parses back to its exact value")
+				} else {
+					vAssert(pr.v == w.val, "C05: the attribute parses back to its exact value")
+				}
 				if w.quoted {
 					vAssert(pr.quoted, "C05: string-like values are quoted")
 				}
